@@ -45,6 +45,16 @@ def keyfile_crypt(path):
                                 "private_path": path, "read_only": False}, "iterations": 1}}
 
 
+def cookie_conf(path):
+    from idpyoidc.server.cookie_handler import CookieHandler
+    return {"class": CookieHandler, "kwargs": {
+        # (lower-case "oct" + bytes: with the spelling "OCT" of srv.py the key file is rewritten with new keys on every start)
+        "keys": {"key_defs": [{"type": "oct", "bytes": 24, "use": ["enc"], "kid": "enc"},
+                              {"type": "oct", "bytes": 24, "use": ["sig"], "kid": "sig"}],
+                 "private_path": path, "read_only": False},
+        "name": {"session": "oidc_op", "register": "oidc_op_reg", "session_management": "oidc_op_sman"}}}
+
+
 def make_provider(kind):
     """kind: dict(jwt_access: bool, pin: 'pwsalt' | 'key' | 'keyfile' | 'jwks_def')"""
     pin = kind.get("pin", "pwsalt")
@@ -52,6 +62,15 @@ def make_provider(kind):
               client_over={"client_2": {"token_endpoint_auth_method": "client_secret_jwt"},
                            "client_3": {"allowed_scopes": ["openid", "email", "offline_access"]}})
     extra = {}
+    if kind.get("cookie_pin", True):
+        # the cookie protection keys are configured key material too: a key file, like the provider's signing keys
+        # (without it a fresh provider draws new keys and takes every cookie issued before the export for absent)
+        extra["cookie_handler"] = cookie_conf(os.path.join(srv.RUN, "c13_cookie_jwks.json"))
+    if kind.get("logout_uris", True):
+        kw["client_over"]["client_1"] = {"frontchannel_logout_uri": "https://client_1.example.com/fc_logout",
+                                         "post_logout_redirect_uri": [("https://client_1.example.com/post_logout", None)]}
+        kw["client_over"]["client_3"]["frontchannel_logout_uri"] = "https://client_3.example.com/fc_logout"
+        kw["client_over"]["client_3"]["frontchannel_logout_session_required"] = True
     if pin == "jwks_def":
         extra["token_handler_args"] = jwks_def_args(os.path.join(srv.RUN, "c13_token_jwks.json"))
     server = srv.make_server(extra=extra or None, **kw) if pin in ("pwsalt", "jwks_def") else None
@@ -62,6 +81,7 @@ def make_provider(kind):
         else:
             cc = keyfile_crypt(os.path.join(srv.RUN, "c13_crypt_jwks.json"))
         conf["session_params"] = {"encrypter": copy.deepcopy(cc)}
+        conf.update({k: v for k, v in extra.items() if k == "cookie_handler"})
         for k in ("code", "token", "refresh"):
             spec = conf["token_handler_args"][k]
             if "class" not in spec:
@@ -109,14 +129,22 @@ class Prov:
         self.dyn = []         # index -> dict(client_id, client_secret, rat)
         self.par = []         # index -> request_uri
         self.nonce = 0
+        # session bookkeeping (only with kind["sessions"]): what a browser / an operator holds on to
+        self.track = bool(kind.get("sessions")) if isinstance(kind, dict) else False
+        self.sids = []        # index -> session id (the encrypted branch id the provider handed out first for that branch)
+        self.spaths = []      # index -> (user, client, grant id) the session id resolves to
+        self.cookies = []     # index -> dict(cookie=[...], req={...}, cref=..., sidx=int)
 
     def tables(self):
         return {"tokens": list(self.tokens), "tclass": list(self.tclass), "towner": list(self.towner),
-                "dyn": copy.deepcopy(self.dyn), "par": list(self.par), "nonce": self.nonce}
+                "dyn": copy.deepcopy(self.dyn), "par": list(self.par), "nonce": self.nonce,
+                "sids": list(self.sids), "spaths": list(self.spaths), "cookies": copy.deepcopy(self.cookies)}
 
     def set_tables(self, t):
         self.tokens, self.dyn, self.par, self.nonce = list(t["tokens"]), copy.deepcopy(t["dyn"]), list(t["par"]), t["nonce"]
         self.tclass, self.towner = list(t["tclass"]), list(t["towner"])
+        self.sids, self.spaths = list(t.get("sids", [])), list(t.get("spaths", []))
+        self.cookies = copy.deepcopy(t.get("cookies", []))
 
     # ---- references
     def client(self, ref):
@@ -178,14 +206,26 @@ class Prov:
         self.clock.tick(d)
         return ["ok"]
 
-    def _authz(self, req, user, cref=None):
+    def _authz(self, req, user, cref=None, cookie=None):
         srv.set_user(self.server, user)
         ep = self.server.get_endpoint("authorization")
         p = ep.parse_request(req)
         e = self.err(p)
         if e:
             return ["err", e]
-        res = ep.process_request(p)
+        if cookie is None:
+            res = ep.process_request(p)
+        else:
+            import logging
+            lg = logging.getLogger("idpyoidc.server.oauth2.authorization")
+            lvl = lg.level
+            lg.setLevel(logging.CRITICAL)       # (NoAuthn cannot render a login page: the endpoint logs that traceback)
+            try:
+                res = ep.process_request(p, http_info={"cookie": cookie})
+            finally:
+                lg.setLevel(lvl)
+            if isinstance(res, dict) and "http_response" in res and "response_args" not in res:
+                return ["login"]      # the provider wants the user to authenticate (again); nothing was issued
         ra = res.get("response_args") if isinstance(res, dict) else res
         e = self.err(ra) if ra is not None else self.err(res)
         if e:
@@ -197,7 +237,36 @@ class Prov:
                 if k == "id_token":
                     out["id_token_claims"] = jwt_claims(ra[k])
         out["scope"] = sorted(ra["scope"]) if "scope" in ra else None
+        if self.track:
+            ck = res.get("cookie") if isinstance(res, dict) else None
+            sidx = self.note_sid(res.get("session_id")) if isinstance(res, dict) and res.get("session_id") else None
+            out["session"] = sidx
+            if ck:
+                self.cookies.append({"cookie": copy.deepcopy(ck), "req": dict(req), "cref": cref, "sidx": sidx, "user": user})
+                out["cookie"] = len(self.cookies) - 1
         return ["ok", out]
+
+    # ---- session ids: named by the index of the branch they resolve to
+    def note_sid(self, sid):
+        try:
+            path = tuple(self.ctx.session_manager.decrypt_session_id(sid))
+        except Exception:
+            return None
+        if path in self.spaths:
+            return self.spaths.index(path)
+        self.spaths.append(path)
+        self.sids.append(sid)
+        return len(self.sids) - 1
+
+    def sid(self, i):
+        return self.sids[i] if i < len(self.sids) else "bm8gc3VjaCBzZXNzaW9u"
+
+    def canon_sid(self, sid):
+        try:
+            path = tuple(self.ctx.session_manager.decrypt_session_id(sid))
+        except Exception:
+            return "<undecodable session id>"
+        return "<session %d>" % self.spaths.index(path) if path in self.spaths else "<session ?>"
 
     def op_authz(self, user, cref, scope, rtype="code"):
         cid, _ = self.client(cref)
@@ -352,6 +421,182 @@ class Prov:
                "scope": " ".join(scope), "state": "as%d" % self.nonce, "nonce": "anonce-%d" % self.nonce,
                "request_uri": uri}
         return self._authz(req, user, cref)
+
+    # ---- a browser that comes back with the provider's session cookie (tracked providers only)
+    def op_authzc(self, k, user, mode="same", cref=None, scope=("openid", "email")):
+        """the authorization request of a user agent presenting the session cookie set by the k-th successful
+        authorization response.  mode: "same" = the very request that was answered then; "scope" = the same client asks
+        again with new state / nonce and `scope`; "client" = another client (`cref`) is visited with that cookie."""
+        if k >= len(self.cookies):
+            return ["skip"]
+        c = self.cookies[k]
+        if mode == "same":
+            req, cr = dict(c["req"]), c["cref"]
+        else:
+            cr = c["cref"] if mode == "scope" else cref
+            cid, _ = self.client(cr)
+            self.nonce += 1
+            req = {"client_id": cid, "redirect_uri": self.redirect(cid), "response_type": "code",
+                   "scope": " ".join(scope), "state": "cs%d" % self.nonce, "nonce": "cnonce-%d" % self.nonce}
+        return self._authz(req, user, cr, cookie=copy.deepcopy(c["cookie"]))
+
+    # ---- state changes of an existing session through the session manager's / end-session endpoint's API
+    def op_api(self, what, i, ref=None, flag=False):
+        sm = self.ctx.session_manager
+        if i is not None and i >= len(self.sids):
+            return ["skip"]
+        if what == "revoke_client":
+            sm.revoke_client_session(self.sid(i))
+        elif what == "revoke_grant":
+            sm.revoke_grant(self.sid(i))
+        elif what == "revoke_user":
+            sm.revoke_sub_tree(self.sid(i), 0)
+        elif what == "remove_session":
+            sm.remove_session(self.sid(i))
+        elif what == "revoke_token":
+            val = self.tok(ref)
+            sid = sm.get_session_id_by_token(val) if i is None else self.sid(i)
+            sm.revoke_token(sid, val, recursive=bool(flag))
+        elif what == "logout":
+            r = self.server.get_endpoint("session").do_verified_logout(self.sid(i), alla=bool(flag))
+            return ["ok", len(list(r))]
+        else:
+            return ["skip"]
+        return ["ok"]
+
+    # ---- read-only queries that resolve a session id
+    def tix(self, value):
+        return self.tokens.index(value) if value in self.tokens else -1
+
+    def grant_view(self, g):
+        ev = getattr(g, "authentication_event", None)
+        return {"class": type(g).__name__, "revoked": bool(g.revoked), "used": g.used, "active": bool(g.is_active()),
+                "scope": list(g.scope or []), "sub": g.sub, "expires_at": g.expires_at,
+                "usage_rules": json.loads(json.dumps(g.usage_rules, sort_keys=True, default=str)),
+                "authn_event": self._msg_plain(ev), "authn_valid": bool(ev.is_valid()) if ev is not None and hasattr(ev, "is_valid") else None,
+                "request": self._msg_plain(getattr(g, "authorization_request", None)),
+                "tokens": [[self.tix(t.value), t.token_class, t.used, bool(t.revoked), bool(t.is_active()), t.expires_at,
+                            self.tix(t.based_on) if t.based_on else None,
+                            json.loads(json.dumps(t.usage_rules, sort_keys=True, default=str))] for t in g.issued_token]}
+
+    @staticmethod
+    def _msg_plain(m):
+        """a stored message as plain data (random client identifiers inside it are named by Prov.canon afterwards)"""
+        if m is None:
+            return None
+        try:
+            d = m.to_dict() if hasattr(m, "to_dict") else dict(m)
+        except Exception:
+            d = dict(getattr(m, "_dict", {}))
+        return json.loads(json.dumps({str(k): v for k, v in d.items() if not str(k).startswith("__")}, sort_keys=True, default=str))
+
+    def node_view(self, n):
+        from idpyoidc.server.session.grant import Grant
+        if isinstance(n, Grant):
+            return self.grant_view(n)
+        return {"class": type(n).__name__, "revoked": bool(n.revoked), "n_sub": len(n.subordinate), "id": n.id,
+                "active": bool(n.is_active()) if hasattr(n, "is_active") else None}
+
+    def op_lookup(self, what, i, ref=None):
+        sm = self.ctx.session_manager
+        if i >= len(self.sids):
+            return ["skip"]
+        sid = self.sid(i)
+        if what == "getitem":
+            return ["ok", self.node_view(sm[sid])]
+        if what == "grant":
+            return ["ok", self.grant_view(sm.get_grant(sid))]
+        if what == "grant_argument":
+            return ["ok", bool(sm.get_grant_argument(sid, "revoked")), sm.get_grant_argument(sid, "used")]
+        if what == "info":
+            r = sm.get_session_info(sid, grant=True)
+            return ["ok", {k: (self.node_view(v) if k in ("user", "client", "grant") else
+                               self.canon_sid(v) if k == "branch_id" else
+                               ("<grant %d>" % i if k == "grant_id" else v)) for k, v in sorted(r.items())}]
+        if what == "authn_event":
+            return ["ok", self._msg_plain(sm.get_authentication_event(sid))]
+        if what == "authn_events":
+            return ["ok", [self._msg_plain(e) for e in sm.get_authentication_events(sid)]]
+        if what == "client_revoked":
+            return ["ok", bool(sm.client_session_is_revoked(sid))]
+        if what == "grants":
+            return ["ok", [self.grant_view(g) for g in sm.grants(sid)]]
+        if what == "find_token":
+            t = sm.find_token(sid, self.tok(ref))
+            return ["ok", None if t is None else [self.tix(t.value), t.token_class, t.used, bool(t.revoked), bool(t.is_active())]]
+        return ["skip"]
+
+    LOOKUPS = ("getitem", "grant", "grant_argument", "info", "authn_event", "authn_events", "client_revoked", "grants")
+
+    def probes(self):
+        """every read-only resolution of every session id handed out so far (what any later request handler may look at);
+        one line of canonical JSON per look-up (an object reached twice is rendered once)"""
+        sm = self.ctx.session_manager
+        memo = {}
+        keep = []
+
+        def gv(o):
+            if id(o) not in memo:
+                keep.append(o)
+                memo[id(o)] = json.dumps(self.canon(self.node_view(o)), sort_keys=True)
+            return memo[id(o)]
+
+        def ev(e):
+            if id(e) not in memo:
+                keep.append(e)
+                memo[id(e)] = json.dumps(self.canon(self._msg_plain(e)), sort_keys=True)
+            return memo[id(e)]
+
+        out = []
+        for i, sid in enumerate(self.sids):
+            for what, f in (("getitem", lambda: gv(sm[sid])),
+                            ("grant", lambda: gv(sm.get_grant(sid))),
+                            ("info", lambda: {k: (gv(v) if k in ("user", "client", "grant") else self.canon_sid(v) if k == "branch_id"
+                                                  else "<grant %d>" % i if k == "grant_id" else self.canon(v))
+                                              for k, v in sorted(sm.get_session_info(sid, grant=True).items())}),
+                            ("authn_events", lambda: [ev(e) for e in sm.get_authentication_events(sid)]),
+                            ("client_revoked", lambda: bool(sm.client_session_is_revoked(sid))),
+                            ("grants", lambda: [gv(g) for g in sm.grants(sid)])):
+                try:
+                    out.append([i, what, ["ok", f()]])
+                except Exception as e:
+                    out.append([i, what, ["exc", type(e).__name__]])
+        return out
+
+    def op_end_session(self, k, idref=None, plr=False):
+        """RP-initiated logout: the end-session endpoint visited with the k-th session cookie (and an id_token_hint);
+        the answer is the redirect to the logout confirmation page, whose signed parameter names the session."""
+        import urllib.parse
+        if k >= len(self.cookies):
+            return ["skip"]
+        c = self.cookies[k]
+        ep = self.server.get_endpoint("session")
+        req = {}
+        if idref is not None:
+            req["id_token_hint"] = self.tok(idref)
+        if plr:
+            cid, _ = self.client(c["cref"])
+            req["post_logout_redirect_uri"] = "https://%s.example.com/post_logout" % cid
+            req["state"] = "logout-state"
+        hi = {"cookie": copy.deepcopy(c["cookie"])}
+        # (Session.parse_request cannot be used with an endpoint that has no client authentication method: it reads
+        #  auth_info["token"] of the 'none' method and raises KeyError; the request is built and verified the way
+        #  parse_request does it for a dict, as the repository's own tests do)
+        p = ep.request_cls(**req)
+        if not p.verify(keyjar=self.server.keyjar, sigalg=""):
+            return ["err", "request does not verify"]
+        res = ep.process_request(p, http_info=hi)
+        loc = res.get("redirect_location") if isinstance(res, dict) else None
+        if not loc:
+            return ["err", self.err(res) or "no redirect"]
+        sjwt = urllib.parse.parse_qs(urllib.parse.urlsplit(loc).query).get("sjwt", [""])[0]
+        try:
+            body = sjwt.split(".")[1]
+            claims = json.loads(base64.urlsafe_b64decode(body + "=" * (-len(body) % 4)))
+        except Exception:
+            claims = {}
+        return ["ok", {"sid": self.canon_sid(claims.get("sid", "")), "redirect_uri": claims.get("redirect_uri"),
+                       "state": claims.get("state")}]
 
     # ---- a state digest through the public API only (what the property calls "equivalent")
     @staticmethod
